@@ -3,6 +3,7 @@ import Preflate.Driver.CodecWire
 import Preflate.Model.Chains
 import Preflate.Model.Stream
 import Preflate.Model.Estimator
+import Preflate.Model.EstimatorFull
 namespace Preflate.Driver
 open Preflate
 
@@ -51,5 +52,28 @@ def estimateLine (d : List UInt8) : String :=
     let parsed ← parse d
     Est.front parsed.blocks) fun f =>
       s!"ok {f.strategy} {f.huffStrategy} {f.windowBits} {f.maxTokenCount} {f.addPolicy} {f.addLimit}"
+
+/-- a parameter vector in the hook's order (`params_to_vec` of verif_hooks.rs; inverse of `paramsOfVec`) -/
+def vecOfParams (p : Params) : List Nat :=
+  [p.strategy, p.huffStrategy, b2n p.zlibCompatible, p.windowBits, p.hashAlg, p.hashShift, p.hashMask,
+   p.maxTokenCount, p.maxDist3, b2n p.veryFar, b2n p.matchesToStart, p.goodLength, p.maxLazy,
+   p.niceLength, p.maxChain, p.minLen, p.addPolicy, p.addLimit, b2n p.isLazy]
+
+/-- `estimatefull` request: the complete parameter estimator (`Est.estimate`), all 19 fields -/
+def estimateFullLine (d : List UInt8) : String :=
+  outcome (do
+    let parsed ← parse d
+    Est.estimate parsed.plain parsed.blocks) fun p =>
+      "ok" ++ String.join ((vecOfParams p).map fun x => s!" {x}")
+
+/-- `public` request: the WHOLE public function `decompress_deflate_stream(D, verify = false)` in the
+    model — parser, the model's own parameter estimator (`Est.estimate`, no vector from the code),
+    parameter header, predictions with the executable predictor, codec, bool coder -/
+def publicLine (d : List UInt8) : String :=
+  outcome (do
+    let r ← decompressStream Est.estimate Chains.pred false d
+    let bytes ← encodeBytes r.corr
+    pure (r.size, bytes)) fun (size, bytes) =>
+      s!"ok {size} {bytes.size} {fnvBytes bytes.toList}"
 
 end Preflate.Driver
